@@ -252,8 +252,11 @@ func (s *ServantProxy) doInvoke(ctx context.Context, msg *Message, timeout time.
 		atomic.AddInt32(&s.queueLen, -1)
 		adp.resp.Delete(msg.Req.IRequestId)
 	}()
-	if err := adp.Send(msg.Req); err != nil {
+	if err := adp.SendContext(ctx, msg.Req); err != nil {
 		adp.failAdd()
+		if ctx.Err() != nil {
+			msg.Status = basef.TARSINVOKETIMEOUT
+		}
 		return err
 	}
 	if msg.Req.CPacketType == basef.TARSONEWAY {
